@@ -11,8 +11,10 @@ import argparse
 import io
 import itertools
 import json
+import os
 import sys
 
+sys.path.insert(0, os.path.dirname(os.path.abspath(__file__)))
 import prov.model as pm
 from prov.model import ProvDocument, ProvBundle, ProvRecord, PROV_REC_CLS
 from prov.identifier import Namespace, QualifiedName
@@ -82,8 +84,9 @@ def check(name, c):
         spellings = [("full-uri", u)]
         if u.startswith(EX):
             spellings += [("text", "ex:" + u[len(EX):]), ("qname-other-prefix", QualifiedName(Namespace("zz", EX), u[len(EX):]))]
-        if u.startswith("http://default.org/"):
-            spellings += [("bare-local", u[len("http://default.org/"):])]
+        dn = c.get_default_namespace()
+        if dn is not None and u.startswith(dn.uri):
+            spellings += [("bare-local", u[len(dn.uri):])]
         for how, x in spellings:
             try:
                 got = c.get_record(x)
@@ -92,7 +95,22 @@ def check(name, c):
                 continue
             got = list(got) if got is not None else []
             if [id(r) for r in got] != [id(r) for r in want]:
-                v.append(("lookup", "%s: get_record(%s %r) returned %d records, expected %d" % (name, how, str(x), len(got), len(want))))
+                scopes = [c] + ([c.document] if getattr(c, "document", None) is not None else [])
+                covered = any(u.startswith(ns.uri) for sc in scopes for ns in list(sc.namespaces) + ([sc.get_default_namespace()] if sc.get_default_namespace() else []))
+                clause = "lookup" if covered or how != "full-uri" else "lookup-full-uri-in-undeclared-namespace"
+                v.append((clause, "%s: get_record(%s %r) returned %d records, expected %d" % (name, how, str(x), len(got), len(want))))
+    # bare local names always mean <current default namespace> + name (also names that used to resolve otherwise)
+    dn = c.get_default_namespace()
+    for local in ("local", "late_local", "absent_local"):
+        want = [r for r in recs if dn is not None and r.identifier is not None and r.identifier.uri == dn.uri + local]
+        try:
+            got = c.get_record(local)
+        except Exception as e:  # noqa
+            v.append(("lookup", "%s: get_record(bare-local %r) raised %r" % (name, local, e)))
+            continue
+        got = list(got) if got is not None else []
+        if [id(r) for r in got] != [id(r) for r in want]:
+            v.append(("lookup", "%s: get_record(bare-local %r) returned %d records, expected %d (default namespace %s)" % (name, local, len(got), len(want), dn.uri if dn else None)))
     if c.get_record(None) is not None:
         v.append(("none-for-none", "%s: get_record(None) is not None" % name))
     classes = [getattr(pm, n) for n in dir(pm) if isinstance(getattr(pm, n), type) and issubclass(getattr(pm, n), ProvRecord)]
@@ -116,30 +134,49 @@ def main():
     a = ap.parse_args()
     failures = {}
     n = 0
+    from roundtrip import load_kf
+    kfs = load_kf("C18")
     for name, c in containers():
         n += 1
         try:
             v = check(name, c)
         except Exception as e:  # noqa
             v = [("no-unexpected-exception", "%s: %r" % (name, e))]
+        # a later chapter: the default namespace is re-declared, a prefix is added, records are added under the new
+        # default; every lookup is repeated (the answers of the first round must not be remembered)
+        try:
+            c.set_default_namespace("http://default2.org/")
+            c.add_namespace("later", "http://later.org/")
+            c.entity("late_local")
+            c.entity("later:x")
+            v += check(name + "/after-namespace-change", c)
+            c.set_default_namespace("http://default.org/")
+            v += check(name + "/default-namespace-restored", c)
+        except Exception as e:  # noqa
+            v.append(("no-unexpected-exception", "%s: %r" % (name, e)))
         for clause, what in v:
             alias = {"lookup": ["by-qualified-name", "by-prefixed-text", "by-full-uri", "by-local-name", "index", "lookup"],
                      "no-leak": ["no-leak", "all-records-in-order"]}
-            failures.setdefault(clause, {"key": clause, "kf": None, "clauses": alias.get(clause, [clause]), "what": what, "history": [name]})
+            kf = None
+            for kid, keys, feat in kfs:
+                if clause in keys:
+                    kf = kid
+            failures.setdefault(clause, {"key": clause, "kf": kf, "clauses": alias.get(clause, [clause]), "what": what, "history": [name]})
     if a.replay:
         info = json.load(open(a.replay))
         print("obligation:", info.get("obligation"))
-        for f in failures.values():
+        bad = [f for f in failures.values() if not f["kf"]]
+        for f in bad:
             print("still failing:", f["what"])
-        return 1 if failures else 0
-    res = {"evaluations": n, "distinct": n, "rule": "one container per record-adding path; every identifier URI in every spelling; every record class",
+        return 1 if bad else 0
+    res = {"evaluations": n, "distinct": n, "rule": "one container per record-adding path; every identifier URI in every spelling; every record class; repeated after re-declaring the default namespace, adding a prefix and records, and after restoring the default namespace",
            "failures_found": len(failures), "failures": list(failures.values())}
     if a.out:
         json.dump(res, open(a.out, "w"), indent=1)
     print("C18 native battery: %d containers, %d failing clauses" % (n, len(failures)))
     for f in failures.values():
-        print("  ", f["clauses"][:2], f["what"][:200])
-    return 1 if failures else 0
+        print("  ", "[%s]" % (f["kf"] or "NEW"), f["clauses"][:2], f["what"][:200])
+    return 1 if [f for f in failures.values() if not f["kf"]] else 0
 
 
 if __name__ == "__main__":
